@@ -141,3 +141,10 @@ func init() {
 		return b
 	}
 }
+
+func init() {
+	// strings are immutable values in the engine: cloning is the identity
+	id := func(fr *frame, args []value) value { return args[0] }
+	externals["internal/stringslite.Clone"] = id
+	externals["strings.Clone"] = id
+}
